@@ -128,7 +128,11 @@ func (e *Exec) invokeMethod(st *State, fr *Frame, c *ssa.CallCommon, recv Value,
 		sig := c.Signature()
 		names := []string{"self"}
 		for i := 0; i < sig.Params().Len(); i++ {
-			names = append(names, sig.Params().At(i).Name())
+			n := sig.Params().At(i).Name()
+			if n == "" || n == "_" {
+				n = fmt.Sprintf("arg%d", i)
+			}
+			names = append(names, n)
 		}
 		st.Trace = append(st.Trace, "call:"+key)
 		res := e.byContract(st, fr, key, ct, names, append([]Value{recv}, args...), resultType(c), instr)
